@@ -857,9 +857,109 @@ func c09Reentrant(c *C) {
 	}
 }
 
+// c09MutatedData: the caller changes its data in place between two executions (same map and slice objects, same
+// lengths, other keys and items): every execution iterates what is there NOW.
+func c09MutatedData(c *C) {
+	r := c.R
+	// one to three of six loops, in random order (a loop may be the only one, or repeated)
+	frags := []string{
+		"{% for k, v in mm sorted %}{{ forloop.Counter }}/{{ forloop.Revcounter }}:{{ k }}={{ v }};{% endfor %}",
+		"{% for k in mm reversed sorted %}{{ k }}{% endfor %}",
+		"{% for k, v in im sorted %}{{ k }}{{ v }}{% endfor %}",
+		"{% for x in sl %}{{ x }}{% empty %}E{% endfor %}",
+		"{% for x in sl reversed %}{{ x }}{% endfor %}",
+		"{% for x in sl sorted %}{{ x }}{% endfor %}",
+	}
+	var picked []int
+	for n := 1 + r.Intn(3); n > 0; n-- {
+		picked = append(picked, r.Intn(len(frags)))
+	}
+	src := ""
+	for _, pi := range picked {
+		src += frags[pi] + "|"
+	}
+	set, _ := newSet(emptySetFiles)
+	tpl, err := set.FromString(src)
+	if err != nil {
+		c.Fail("reference-mismatch", D{"source": src, "compile_err": err.Error()})
+		return
+	}
+	mm := map[string]int{"a": 1, "b": 2}
+	im := map[int]string{1: "x", 2: "y"}
+	sl := []string{"p", "q", "r"}
+	ctx := pongo2.Context{"mm": mm, "im": im, "sl": sl}
+	letters := []string{"a", "b", "c", "d", "e"}
+	for step := 0; step < 5; step++ {
+		// expected from the data as it is now
+		var keys []string
+		for k := range mm {
+			keys = append(keys, k)
+		}
+		sort.Strings(keys)
+		var iks []int
+		for k := range im {
+			iks = append(iks, k)
+		}
+		sort.Ints(iks)
+		ss := append([]string(nil), sl...)
+		sort.Strings(ss)
+		var want strings.Builder
+		for _, pi := range picked {
+			switch pi {
+			case 0:
+				for i, k := range keys {
+					fmt.Fprintf(&want, "%d/%d:%s=%d;", i+1, len(keys)-i, k, mm[k])
+				}
+			case 1:
+				for i := len(keys) - 1; i >= 0; i-- {
+					want.WriteString(keys[i])
+				}
+			case 2:
+				for _, k := range iks {
+					fmt.Fprintf(&want, "%d%s", k, im[k])
+				}
+			case 3:
+				want.WriteString(strings.Join(sl, ""))
+			case 4:
+				for i := len(sl) - 1; i >= 0; i-- {
+					want.WriteString(sl[i])
+				}
+			default:
+				want.WriteString(strings.Join(ss, ""))
+			}
+			want.WriteString("|")
+		}
+		out, xerr := tpl.Execute(ctx)
+		c.Eval(1)
+		if xerr != nil || out != want.String() {
+			c.Fail("reference-mismatch", D{"source": q(src), "step": step, "data_now": fmt.Sprint(mm, im, sl), "output": q(out), "expected": q(want.String()), "exec_err": errStr(xerr), "why": "the caller's map / slice was changed in place (same object, same length) since the previous execution"})
+			return
+		}
+		// mutate in place, keeping the lengths
+		del := keys[r.Intn(len(keys))]
+		delete(mm, del)
+		for {
+			nk := letters[r.Intn(len(letters))]
+			if _, has := mm[nk]; !has && nk != del {
+				mm[nk] = 10 + step
+				break
+			}
+		}
+		delete(im, iks[0])
+		im[iks[len(iks)-1]+1+r.Intn(3)] = "z" + fmt.Sprint(step)
+		sl[r.Intn(len(sl))] = letters[r.Intn(len(letters))] + fmt.Sprint(step)
+	}
+	c.Cover("data_mutated_in_place_between_executions")
+	c.Nontrivial(fmt.Sprintf("mutated:%d", c.Idx))
+}
+
 func c09Run(c *C) {
 	if c.Idx%25 == 7 {
 		c09Reentrant(c)
+		return
+	}
+	if c.Idx%100 == 13 {
+		c09MutatedData(c)
 		return
 	}
 	g := &c09Gen{r: c.R}
